@@ -42,6 +42,15 @@ class LoopSpec(object):
         return st
 
 
+class _Shape(object):
+    """returned by a clause builder when the value it should speak about does not have the form it can speak of"""
+    def __repr__(self):
+        return "SHAPE"
+
+
+SHAPE = _Shape()
+
+
 class Contract(object):
     file = None
     qual = None
@@ -162,10 +171,11 @@ def verify_function(ex, con, prop=None):
                 if tag in ("ok", "ret"):
                     val = v if tag == "ret" else NONE
                     for (label, t) in con.ensures(ex, st0, s, a, val):
-                        if t is None:
-                            # the clause cannot be stated over what the executor shows of this post-state: skipped, and said so
-                            info.setdefault("skipped_clauses", set()).add("%s[%s]::ensures:%s" % (con.qual, variant, label))
-                            continue
+                        if t is None or t is SHAPE:
+                            # the clause cannot be stated over what the executor shows of this post-state (the value does not
+                            # have the form the clause speaks of).  On an infeasible path that is nothing; on a feasible one the
+                            # proof fails there -- undecided, not a counterexample (run.handle_refuted, `shape:`)
+                            label, t = "shape:" + label, tm.FALSE
                         obligs.append(_ob(ex, "%s::ensures:%s%s" % (base, label, pid), s, t, prop, mterms,
                                           "postcondition %s on a normal return" % label,
                                           meta=dict(function=con.qual, file=con.file, variant=variant, clause=label,
@@ -195,6 +205,8 @@ def verify_function(ex, con, prop=None):
                                           meta=dict(function=con.qual, file=con.file, variant=variant,
                                                     clause="raises:" + mro[0], kind="raises")))
                     for (label, t) in con.ensures_exc(ex, st0, s, a, v) if hasattr(con, "ensures_exc") else []:
+                        if t is None or t is SHAPE:
+                            label, t = "shape:" + label, tm.FALSE
                         obligs.append(_ob(ex, "%s::exc-frame:%s%s" % (base, label, pid), s, t, prop, mterms,
                                           "frame condition %s on an exceptional exit" % label,
                                           meta=dict(function=con.qual, file=con.file, variant=variant, clause=label,
